@@ -65,7 +65,7 @@ def spec_panel(work, zones, tier, verdict):
         jobs.append((zin, os.path.join(work, "panel-out.%d.ndjson" % i)))
     import concurrent.futures as cf
     with cf.ThreadPoolExecutor(max_workers=k) as ex:
-        rs = list(ex.map(lambda j: V.tlc("GenPanel", "Empty.cfg", env={"ZONES": j[0], "OUT": j[1], "PANEL": tier},
+        rs = list(ex.map(lambda j: V.tlc("GenPanel", "GenPanel.cfg", env={"ZONES": j[0], "OUT": j[1], "PANEL": tier},
                                          timeout=1800, tag="panel-%s" % os.path.basename(j[1])), jobs))
     out = os.path.join(work, "panel.txt")
     n = 0
